@@ -209,14 +209,25 @@ func (w *world) apply(c cfgT, ev string) string {
 	st := am.S(strings.Split(arg, ","))
 	switch op {
 	case "sadd", "srem":
-		before := w.src.Time(nil).Sum(nil)
+		// only a change of a synchronised state produces a push
+		syncedSum := func() (n uint64) {
+			for i, s := range w.synced(c) {
+				t := w.src.Tick(s)
+				if c.Shallow {
+					t %= 2 // only activity is sent
+				}
+				n = n*31 + t + uint64(i)
+			}
+			return
+		}
+		before := syncedSum()
 		var res am.Result
 		if op == "sadd" {
 			res = w.src.Add(st, nil)
 		} else {
 			res = w.src.Remove(st, nil)
 		}
-		if w.lostReply && !w.held && w.src.Time(nil).Sum(nil) != before {
+		if w.lostReply && !w.held && syncedSum() != before {
 			w.changedAfter = true
 		}
 		return fmt.Sprint(res)
